@@ -22,7 +22,7 @@ Definition cases : list (nat * nat * list label) := [
 Definition cid (c : nat * nat * list label) := fst (fst c).
 Definition cth (c : nat * nat * list label) := snd (fst c).
 Definition rejects := Eval vm_compute in
-  flat_map (fun c => match first_reject (cth c) false (init) (snd c) 0 with Some i => [(cid c, i)] | None => [] end) cases.
+  flat_map (fun c => match first_reject (cth c) false false init (snd c) 0 with Some i => [(cid c, i)] | None => [] end) cases.
 Definition monitor_hits := Eval vm_compute in
   flat_map (fun c => match first_violation (cth c) ginit (snd c) 0 with Some i => [(cid c, i)] | None => [] end) cases.
 Definition status_bad := Eval vm_compute in
